@@ -138,6 +138,28 @@ impl<'a, 'tcx> Cx<'a, 'tcx> {
                     "targs",
                     J::Arr(args.iter().map(|a| J::s(format!("{}", a))).collect()),
                 );
+            // tuple-struct / tuple-variant constructor used as a function value (`.map(Self::Frame)`)
+            if let rustc_hir::def::DefKind::Ctor(of, rustc_hir::def::CtorKind::Fn) = tcx.def_kind(did) {
+                let vdid = tcx.parent(did);
+                let (adt_did, vname) = match of {
+                    rustc_hir::def::CtorOf::Variant => (tcx.parent(vdid), tcx.item_name(vdid).to_string()),
+                    rustc_hir::def::CtorOf::Struct => (vdid, tcx.item_name(vdid).to_string()),
+                };
+                let adt = tcx.adt_def(adt_did);
+                let nf = adt
+                    .variants()
+                    .iter()
+                    .find(|v| v.ctor_def_id() == Some(did))
+                    .map(|v| v.fields.len())
+                    .unwrap_or(0);
+                o.put(
+                    "ctor",
+                    J::obj()
+                        .set("adt", J::s(path_of(tcx, adt_did)))
+                        .set("variant", J::s(vname))
+                        .set("nfields", J::Int(nf as i128)),
+                );
+            }
             // local-crate-family ADTs mentioned in the callee's generic arguments: foreign generic
             // code may call their trait impls (Iterator::next, Display::fmt, ...)
             let mut mentions: Vec<String> = Vec::new();
